@@ -480,6 +480,21 @@ func (c *Ctx) checkDeltaSides() {
 		if len(sw) == 0 || len(sg) == 0 {
 			continue
 		}
+		// the stores may sit in a constructor of the notification parameters that receives the two
+		// texts: the renderer is then the function that computes them (the constructor's only caller)
+		holder := fn
+		valueOf := func(st *ssa.Store) ssa.Value {
+			v := c.rootValue(st.Val)
+			if in, ok := v.(ssa.Instruction); ok && in.Parent() != holder {
+				fn = in.Parent()
+			} else if p, ok := v.(*ssa.Parameter); ok && p.Parent() != holder {
+				fn = p.Parent()
+			}
+			return v
+		}
+		for _, st := range append(append([]*ssa.Store{}, sw...), sg...) {
+			valueOf(st)
+		}
 		// sides of the mode parameters
 		side := map[*ssa.Parameter]string{}
 		for i, p := range fn.Params {
@@ -515,7 +530,7 @@ func (c *Ctx) checkDeltaSides() {
 			for _, st := range stores {
 				bad := ""
 				for p, s := range side {
-					if s != want && derivesAny(st.Val, func(v ssa.Value) bool { return v == ssa.Value(p) }) {
+					if s != want && derivesAny(valueOf(st), func(v ssa.Value) bool { return v == ssa.Value(p) }) {
 						bad = p.Name()
 					}
 				}
@@ -863,6 +878,31 @@ func (c *Ctx) checkRemovedSenderDegraded(handler *ssa.Function) {
 						okDeg = true
 					}
 				}
+			}
+		}
+		if acc, isCall := recv.(*ssa.Call); isCall && !okDeg {
+			// an accessor of the record (`pud.activeMode()`): every return that yields the record's modes
+			// is behind !deleted, the others return the invalid / empty constant
+			if g := acc.Call.StaticCallee(); g != nil && core.InModule(g) && len(g.Blocks) > 0 {
+				good, nRet := true, 0
+				gNotDel := core.BoolGuard("!deleted", core.IsFieldLoad(deletedF), false)
+				core.AllInstrs(g, func(x ssa.Instruction) {
+					ret, ok := x.(*ssa.Return)
+					if !ok || len(ret.Results) != 1 {
+						return
+					}
+					nRet++
+					if core.IsConstOf(inv)(ret.Results[0]) || core.IsConstOf(none)(ret.Results[0]) {
+						return
+					}
+					core.NoLift = true
+					ok2, cnt := core.GuardedBy(g, ret, gNotDel)
+					core.NoLift = false
+					if !ok2 || cnt[0] == 0 {
+						good = false
+					}
+				})
+				okDeg = good && nRet > 0
 			}
 		}
 		if !okDeg {
